@@ -169,6 +169,16 @@ def _opt(d, name):
         except Exception: o = {}
     return (o or {}).get(name)
 
+def _w(d): return d.get('what') or ''
+def _value_diff(d):
+    """the observed failure is a difference in scalar TEXT (not in a tag, an anchor, a directive or the document structure)"""
+    w = _w(d)
+    if d.get('kind') == 'emit_parse_differs': return re.search(r'event \d+: scalar (?!tag )', w) is not None
+    return True       # value-level round trips report an offset in the canonical graph; nothing more specific is known
+def _tag_diff(d):
+    w = _w(d)
+    return re.search(r'event \d+: (scalar tag|collection tag)', w) is not None
+
 def nel_unquoted_under_allow_unicode(d):
     """a str containing U+0085 dumped/emitted with allow_unicode=True: analyze_scalar counts NEL as a printable unicode
     character, so plain/single-quoted/literal/folded styles stay allowed; the scanner then reads the raw NEL as a line break
@@ -181,7 +191,7 @@ def dq_fold_after_escaped_space(d):
     right after a fold whose continuation starts with the escaped space it folds again and emits a second backslash, so the
     output contains a continuation line made only of indentation and '\\' (an escaped backslash).  Recognised by that line
     in the emitted text; never produced otherwise (the writer does not leave unescaped breaks inside double quotes)."""
-    if d.get('kind') not in ('roundtrip_differs', 'emit_parse_differs', 'not_fixed_point'): return False
+    if d.get('kind') not in ('roundtrip_differs', 'emit_parse_differs', 'not_fixed_point') or not _value_diff(d): return False
     return re.search(r'(^|[\r\n]) *\\\\(\r|\n|$)', d.get('text') or '') is not None and _opt(d, 'width') is not None
 
 def escaped_simple_key_over_1024(d):
@@ -198,7 +208,7 @@ def folded_more_indented_line_folded(d):
     """folded style ('>') with a small width: write_folded folds at a space of a more-indented line (a line that starts with
     a space); on reading, more-indented lines keep their breaks, so a space inside the line comes back as a line break, and a
     single leading space folded at column == indent (indentation already beyond the width) is lost altogether."""
-    if d.get('kind') not in ('roundtrip_differs', 'emit_parse_differs', 'not_fixed_point'): return False
+    if d.get('kind') not in ('roundtrip_differs', 'emit_parse_differs', 'not_fixed_point') or not _value_diff(d): return False
     if _opt(d, 'width') is None and not d.get('events'): return False
     folded = _opt(d, 'default_style') == '>'
     if d.get('events'):
@@ -213,7 +223,7 @@ def primary_handle_redefined(d):
     """a document whose %TAG directive redefines the primary handle '!' (e.g. %TAG ! !my-) and that carries a local tag
     ('!x') not under the new prefix: the emitter keeps the default '!' -> '!' prefix entry, writes the tag as '!x', and
     the parser reads it back as '<prefix>x'."""
-    if d.get('kind') not in ('emit_parse_differs',) or not d.get('events'): return False
+    if d.get('kind') not in ('emit_parse_differs',) or not d.get('events') or not _tag_diff(d): return False
     from tools.events import dec_case
     try: evs, _ = dec_case(d['events'])
     except Exception: return False
@@ -249,6 +259,8 @@ def empty_plain_root_with_tag(d):
         except Exception: return False
         return any(isinstance(n, yaml.ScalarNode) and n.value == '' for n in roots if n is not None)
     if d.get('kind') not in ('emit_unparsable', 'emit_parse_differs', 'count_differs') or not d.get('events'): return False
+    if d.get('kind') == 'emit_unparsable' and not re.search(r"expected the node content|did not find expected node content|expected '<document start>'|did not find expected <document start>", _w(d)): return False
+    if d.get('kind') == 'emit_parse_differs' and not re.search(r'event types|events emitted', _w(d)): return False
     from tools.events import dec_case
     try: evs, o = dec_case(d['events'])
     except Exception: return False
